@@ -426,6 +426,131 @@ fn graph_histories(ctx: &Ctx, n: u64) -> SubReport {
     )
 }
 
+/// One segment of the life of a long-lived state: the host queues messages, takes some OUTPUT
+/// messages away, then a program of IO instructions runs.
+#[derive(Debug, Clone)]
+pub struct IoSegment {
+    pub push_in: Vec<MsgSpec>,
+    pub force: bool,
+    pub pop_out: u8,
+    pub pop_in: u8,
+    pub program: Vec<ItemSpec>,
+}
+
+fn io_history_strategy() -> BoxedStrategy<Vec<IoSegment>> {
+    let names: Vec<String> = crate::exec::registry_names().into_iter().filter(|n| n.starts_with("INPUT.") || n.starts_with("OUTPUT.")).collect();
+    let tok = prop_oneof![
+        12 => prop::sample::select(names).prop_map(ItemSpec::Instr),
+        3 => gen::index_around(5).prop_map(ItemSpec::Int),
+        2 => gen::bvec(6).prop_map(ItemSpec::BVec),
+        2 => gen::ivec_small(4).prop_map(ItemSpec::IVec),
+    ];
+    let seg = (prop::collection::vec(gen::msg(), 0..=12), any::<bool>(), 0u8..4, 0u8..4, prop::collection::vec(tok, 0..16))
+        .prop_map(|(push_in, force, pop_out, pop_in, program)| IoSegment { push_in, force, pop_out, pop_in, program });
+    prop::collection::vec(seg, 2..7).boxed()
+}
+
+fn msg_json(m: &MsgSpec) -> Value {
+    json!({"header": m.header, "body": m.body})
+}
+
+fn io_history_json(h: &Vec<IoSegment>) -> Value {
+    json!({"segments": h.iter().map(|g| json!({
+        "push_in": g.push_in.iter().map(msg_json).collect::<Vec<_>>(), "force": g.force, "pop_out": g.pop_out, "pop_in": g.pop_in,
+        "program": g.program.iter().map(|x| x.to_json()).collect::<Vec<_>>(),
+        "text": g.program.iter().map(|x| x.render()).collect::<Vec<_>>().join(" "),
+    })).collect::<Vec<_>>()})
+}
+
+fn io_history_from_json(v: &Value) -> Option<Vec<IoSegment>> {
+    let mut out = vec![];
+    for g in v.get("segments")?.as_array()? {
+        let mut push_in = vec![];
+        for m in g.get("push_in")?.as_array()? {
+            push_in.push(MsgSpec {
+                header: m.get("header")?.as_array()?.iter().filter_map(|x| x.as_i64().map(|y| y as i32)).collect(),
+                body: m.get("body")?.as_array()?.iter().filter_map(|x| x.as_bool()).collect(),
+            });
+        }
+        out.push(IoSegment {
+            push_in,
+            force: g.get("force")?.as_bool()?,
+            pop_out: g.get("pop_out")?.as_u64()? as u8,
+            pop_in: g.get("pop_in")?.as_u64()? as u8,
+            program: g.get("program")?.as_array()?.iter().filter_map(ItemSpec::from_json).collect(),
+        });
+    }
+    Some(out)
+}
+
+/// crash-only: every host call on the queues and every step returns
+fn judge_io_history(h: &Vec<IoSegment>) -> CaseResult {
+    use pushr::push::io::PushMessage;
+    use pushr::push::vector::{BoolVector, IntVector};
+    let (mut st, _) = StateSpec::default().build();
+    let mut wrapped = false;
+    let mut pushed_total = 0usize;
+    let mut steps = 0usize;
+    let mut hh = Fnv::new();
+    for (gi, g) in h.iter().enumerate() {
+        crate::supervise::journal_value(&json!({"kind": "c01-io", "history": io_history_json(h)}));
+        let r = guarded(|| {
+            for m in &g.push_in {
+                let pm = PushMessage::new(IntVector::new(m.header.clone()), BoolVector::new(m.body.clone()));
+                if g.force {
+                    st.input_stack.push_force(pm);
+                } else {
+                    st.input_stack.push(pm);
+                }
+            }
+            for _ in 0..g.pop_out {
+                let _ = st.output_stack.pop();
+            }
+            for _ in 0..g.pop_in {
+                let _ = st.input_stack.pop();
+            }
+            let _ = st.input_stack.to_string();
+            let _ = st.output_stack.to_string();
+            let _ = st.input_stack.copy_oldest();
+            let _ = st.output_stack.peek_newest();
+            let _ = st.input_stack.iter().count();
+        });
+        if let Err((loc, msg)) = r {
+            return Err(Fail::new(format!("C01/io-history/host-call/panic@{}", loc), format!("segment {}: host calls on the INPUT / OUTPUT queues panicked at {}: {}", gi, loc, msg)));
+        }
+        pushed_total += g.push_in.len();
+        if pushed_total > 10 {
+            wrapped = true;
+        }
+        for it in g.program.iter().rev() {
+            st.exec_stack.push(it.to_item());
+        }
+        hh.u64(g.program.len() as u64 ^ ((g.push_in.len() as u64) << 8) ^ ((g.pop_out as u64) << 16));
+        for x in &g.program {
+            hh.str(&x.render());
+        }
+        match crate::exec::with_machine(|m| step_program(&mut st, m, 200)) {
+            Ok(stats) => steps += stats.steps,
+            Err((name, loc, msg)) => {
+                return Err(Fail::new(format!("C01/{}/panic@{}", name, loc), format!("segment {} of an INPUT/OUTPUT history: {} panicked at {}: {}", gi, name, loc, msg)));
+            }
+        }
+    }
+    Ok(CaseOut::new(wrapped && steps >= 8, hh.0).class(if wrapped { "ring wrapped" } else { "ring not wrapped" }))
+}
+
+/// crash-only re-execution of a journalled INPUT/OUTPUT history (fresh process)
+pub fn exec_journalled_io(v: &Value) -> Result<(), String> {
+    let h = v.get("history").and_then(io_history_from_json).ok_or("bad io history")?;
+    judge_io_history(&h).map(|_| ()).map_err(|f| f.detail)
+}
+
+fn io_histories(ctx: &Ctx, n: u64) -> SubReport {
+    let mut rep = run_sharded(ctx, "io-histories", n, io_history_strategy, judge_io_history, io_history_json);
+    rep.notes.push("a long-lived state: 2..6 segments, in each the host queues 0..12 INPUT messages (push or push_force), takes 0..3 messages off OUTPUT and INPUT, observes both queues, and a program of INPUT.* / OUTPUT.* instructions and operands is stepped; the ring cursors therefore wrap and the queues are refilled after being partly consumed; crash-only; non-trivial = more than one ring capacity of messages queued and >= 8 steps".into());
+    rep
+}
+
 pub fn run(ctx: &Ctx) -> PropReport {
     let names = crate::exec::registry_names();
     let mut rep = PropReport::new(
@@ -443,6 +568,7 @@ pub fn run(ctx: &Ctx) -> PropReport {
     }));
     rep.push(generated_programs(ctx, ctx.tier.pick(8_000, 100_000)));
     rep.push(graph_histories(ctx, ctx.tier.pick(40_000, 400_000)));
+    rep.push(io_histories(ctx, ctx.tier.pick(40_000, 400_000)));
     rep.push(exec_cmd_cases(ctx, ctx.tier.pick(2, 6)));
     if ctx.tier == Tier::Thorough {
         rep.push(crate::fuzzrun::campaign(ctx, "C01", "exec_program", 2_000_000, 1024));
@@ -460,6 +586,10 @@ pub fn replay(ctx: &Ctx, sub: &str, case: &Value) -> Result<(), Fail> {
         };
     }
     let bad = || Fail::new("replay-format", "cannot decode C01 case");
+    if sub == "io-histories" {
+        let h = io_history_from_json(case).ok_or_else(bad)?;
+        return judge_io_history(&h).map(|_| ());
+    }
     let s = StateSpec::from_json(case.get("state").ok_or_else(bad)?).ok_or_else(bad)?;
     if let Some(name) = case.get("instruction").and_then(|x| x.as_str()) {
         let live = case.get("live_ids").and_then(|x| x.as_u64()).unwrap_or(0) as u8;
